@@ -20,6 +20,11 @@ with expr :=
 | EAnd (p : prim) (e : expr)
 | EOr (p : prim) (e : expr).
 
+(* mutual induction principle *)
+Scheme prim_mind := Induction for prim Sort Prop
+  with expr_mind := Induction for expr Sort Prop.
+Combined Scheme prim_expr_ind from prim_mind, expr_mind.
+
 (* ---- meaning: `and` binds tighter than `or`, wherever they are mixed ----
    [semE acc e] reads the chain left to right; [acc] is the value of the conjunction collected
    since the last `or`. *)
@@ -164,3 +169,37 @@ Fixpoint separated (ts : list tok) : bool :=
 
 (* no TOther in a skeleton *)
 Definition skeleton_tok (t : tok) : bool := match t with TOther _ => false | _ => true end.
+
+(* ---- chains of a single connective ---- *)
+(* p1 and p2 and ... and pn and <k last> *)
+Fixpoint and_run (ps : list prim) (last : prim) (k : prim -> expr) : expr :=
+  match ps with
+  | [] => k last
+  | p :: r => EAnd p (and_run r last k)
+  end.
+
+Fixpoint or_run (ps : list prim) (last : prim) : expr :=
+  match ps with
+  | [] => ELast last
+  | p :: r => EOr p (or_run r last)
+  end.
+
+(* ---- redundant parentheses ----
+   [wrapE b e e']: e' is e with one pair of parentheses added around a sub-expression that the
+   precedence rules already treat as a unit: a primary; the whole filter, the whole content of a
+   parenthesis or the whole operand of `not`; everything that follows an `or`; a complete run of
+   `and`s up to the next `or`.  [b = true] marks the positions at which a new disjunct starts
+   (where wrapping the rest of the chain keeps the meaning). *)
+Inductive wrapP : prim -> prim -> Prop :=
+| WpHere : forall p, wrapP p (XParen (ELast p))
+| WpIn : forall e e', wrapE true e e' -> wrapP (XParen e) (XParen e')
+with wrapE : bool -> expr -> expr -> Prop :=
+| WeWhole : forall e, wrapE true e (ELast (XParen e))
+| WeRun : forall ps last rest,
+    wrapE true (and_run ps last (fun p => EOr p rest)) (EOr (XParen (and_run ps last ELast)) rest)
+| WeLast : forall b p p', wrapP p p' -> wrapE b (ELast p) (ELast p')
+| WeNot : forall b e e', wrapE true e e' -> wrapE b (ENot e) (ENot e')
+| WeAndHead : forall b p p' e, wrapP p p' -> wrapE b (EAnd p e) (EAnd p' e)
+| WeAndTail : forall b p e e', wrapE false e e' -> wrapE b (EAnd p e) (EAnd p e')
+| WeOrHead : forall b p p' e, wrapP p p' -> wrapE b (EOr p e) (EOr p' e)
+| WeOrTail : forall b p e e', wrapE true e e' -> wrapE b (EOr p e) (EOr p e').
